@@ -153,6 +153,11 @@ func (cse *connectivityStateEvaluator) recordTransition(
 // subConnRef keeps reference to the real SubConn with its
 // connectivity state, affinity count and streams count.
 type subConnRef struct {
+	// mu guards subConn, lastResp and refreshCnt: they are written holding
+	// both gcpBalancer.mu and mu (or by gotResp holding mu), so reading them
+	// requires either of the locks. When both are needed gcpBalancer.mu must
+	// be acquired first. refreshing is guarded by gcpBalancer.mu.
+	mu          sync.RWMutex
 	subConn     balancer.SubConn
 	stateSignal chan struct{} // This channel is closed and re-created when subConn or its state changes.
 	affinityCnt int32         // Keeps track of the number of keys bound to the subConn.
@@ -192,9 +197,26 @@ func (ref *subConnRef) deCallsInc() uint32 {
 }
 
 func (ref *subConnRef) gotResp() {
+	ref.mu.Lock()
+	defer ref.mu.Unlock()
 	ref.lastResp = time.Now()
 	atomic.StoreUint32(&ref.deCalls, 0)
 	ref.refreshCnt = 0
+}
+
+// getSubConn returns the current SubConn of the ref.
+func (ref *subConnRef) getSubConn() balancer.SubConn {
+	ref.mu.RLock()
+	defer ref.mu.RUnlock()
+	return ref.subConn
+}
+
+// respInfo returns the time of the last response and the number of refreshes
+// since then.
+func (ref *subConnRef) respInfo() (time.Time, uint32) {
+	ref.mu.RLock()
+	defer ref.mu.RUnlock()
+	return ref.lastResp, ref.refreshCnt
 }
 
 type gcpBalancer struct {
@@ -395,12 +417,14 @@ func (gb *gcpBalancer) getReadySubConnRef(boundKey string) (*subConnRef, bool) {
 }
 
 func (gb *gcpBalancer) getSubConnRoundRobin(ctx context.Context) *subConnRef {
+	gb.mu.RLock()
 	if len(gb.scRefList) == 0 {
+		gb.mu.RUnlock()
 		gb.newSubConn()
+		gb.mu.RLock()
 	}
 	scRef := gb.scRefList[atomic.AddUint32(&gb.rrRefId, 1)%uint32(len(gb.scRefList))]
 
-	gb.mu.RLock()
 	if state := gb.scStates[scRef.subConn]; state == connectivity.Ready {
 		gb.mu.RUnlock()
 		return scRef
@@ -432,6 +456,24 @@ func (gb *gcpBalancer) getSubConnRoundRobin(ctx context.Context) *subConnRef {
 func (gb *gcpBalancer) bindSubConn(bindKey string, sc balancer.SubConn) {
 	gb.mu.Lock()
 	defer gb.mu.Unlock()
+	scRef, found := gb.scRefs[sc]
+	if !found {
+		// The SubConn is gone (was shut down), nothing to bind to.
+		return
+	}
+	_, ok := gb.affinityMap[bindKey]
+	if !ok {
+		gb.affinityMap[bindKey] = sc
+	}
+	scRef.affinityIncr()
+}
+
+// bindSubConnRef binds the given affinity key to the current SubConn of the
+// subConnRef (which may have been refreshed since the call was picked).
+func (gb *gcpBalancer) bindSubConnRef(bindKey string, ref *subConnRef) {
+	gb.mu.Lock()
+	defer gb.mu.Unlock()
+	sc := ref.subConn
 	scRef, found := gb.scRefs[sc]
 	if !found {
 		// The SubConn is gone (was shut down), nothing to bind to.
@@ -511,11 +553,13 @@ func (gb *gcpBalancer) UpdateSubConnState(sc balancer.SubConn, scs balancer.SubC
 				gb.fallbackMap[k] = sc
 			}
 		}
+		scRef.mu.Lock()
 		scRef.subConn = sc
-		scRef.deCalls = 0
+		atomic.StoreUint32(&scRef.deCalls, 0)
 		scRef.lastResp = time.Now()
 		scRef.refreshing = false
 		scRef.refreshCnt++
+		scRef.mu.Unlock()
 		gb.cc.RemoveSubConn(oldSc)
 	}
 
@@ -586,9 +630,6 @@ func (gb *gcpBalancer) UpdateSubConnState(sc balancer.SubConn, scs balancer.SubC
 // refresh initiates a new SubConn for a specific subConnRef and starts connecting.
 // If the refresh is already initiated for the ref, then this is a no-op.
 func (gb *gcpBalancer) refresh(ref *subConnRef) {
-	if ref.refreshing {
-		return
-	}
 	gb.mu.Lock()
 	defer gb.mu.Unlock()
 	if ref.refreshing {
